@@ -8,7 +8,7 @@ import subprocess
 import sys
 import time
 
-from sim import engine
+from sim import engine, runner
 
 VERIF = os.path.dirname(os.path.dirname(os.path.abspath(__file__)))
 PROPS = ["C01", "C02", "C04", "C05", "C07", "C11", "C12", "C13", "C14", "C15", "C16", "C17"]
@@ -21,9 +21,23 @@ def _digest_task(args):
     for idx in indices:
         rs = engine.run_seed(seed, pid, "quick", idx)
         plan = prop.generate(random.Random(rs), "quick", idx)
+        if os.environ.get("VERIF_SELFTEST_EVENTS"):
+            # diagnostic mode: keep the event list of every leg so that the first diverging event can be shown
+            legs = prop.legs(plan)
+            evs = {}
+            for name, leg in legs.items():
+                leg = dict(leg)
+                leg["opts"] = dict(leg.get("opts") or {}, keep_events=True)
+                rr = (runner.run_leg_fresh_interpreter if fresh else runner.run_leg_forked)(leg)
+                evs[name] = [rr.get("events"), rr.get("stdout_digest"), rr.get("digest")]
+            out[idx] = ["ok", json.dumps(evs, sort_keys=True), []]
+            continue
         r = engine.run_plan(prop, plan, fresh=fresh)
         sigs = sorted([v["oracle"], v["signature"]] for v in r.get("violations") or [])
         out[idx] = [r.get("status"), r.get("digest"), sigs]
+        if os.environ.get("VERIF_KEEP_EVENTS") and str(idx) in os.environ["VERIF_KEEP_EVENTS"].split(","):
+            with open("/tmp/events_%s_%d_%d.json" % (pid, idx, os.getpid()), "w") as fh:
+                json.dump(r.get("legs_events"), fh)
     return out
 
 
@@ -63,7 +77,7 @@ def determinism(seed, n=None, nfresh=None):
     bad = 0
     t0 = time.time()
     summary = {}
-    for pid in PROPS:
+    for pid in (os.environ.get("VERIF_SELFTEST_PROPS", "").split(",") if os.environ.get("VERIF_SELFTEST_PROPS") else PROPS):
         a = digests(pid, seed, n, 16)
         b = digests(pid, seed, n, 4)
         envv = dict(os.environ, PYTHONHASHSEED="1")
@@ -89,6 +103,19 @@ def determinism(seed, n=None, nfresh=None):
         print("%s: %d seeds x (16 workers, 4 workers, PYTHONHASHSEED=1) + %d in fresh interpreters: %d mismatches, "
               "%d non-ok runs" % (pid, n, nfresh, len(mism), nonok))
         for m in mism[:5]:
+            if os.environ.get("VERIF_SELFTEST_EVENTS"):
+                ea, eb = json.loads(m[2][1]), json.loads(m[3][1])
+                for leg in ea:
+                    la, lb = ea[leg][0] or [], eb[leg][0] or []
+                    for k in range(max(len(la), len(lb))):
+                        if k >= len(la) or k >= len(lb) or la[k] != lb[k]:
+                            print("   MISMATCH", m[0], m[1], "leg", leg, "first diverging event", k,
+                                  la[k] if k < len(la) else None, lb[k] if k < len(lb) else None)
+                            break
+                    else:
+                        if ea[leg][1:] != eb[leg][1:]:
+                            print("   MISMATCH", m[0], m[1], "leg", leg, "same events, stdout/digest differ", ea[leg][1:], eb[leg][1:])
+                continue
             print("   MISMATCH", m)
         bad += len(mism)
     print("determinism self-test: %d mismatches, %.0fs" % (bad, time.time() - t0))
